@@ -89,6 +89,9 @@ def intSem : Sem where
     | .add => some (a + b) | .sub => some (a - b) | .mul => some (a * b)
     | .lt => some (if a < b then 1 else 0) | .eq => some (if a = b then 1 else 0)
     | _ => none
+  compoundop op a b := match op with
+    | .add => some (a + b) | .sub => some (a - b) | .mul => some (a * b)
+    | _ => none
 
 /-- `x = 5; y = 1; x = y and x` (x = local 0, y = local 1) -/
 def progF25 : Expr :=
